@@ -16,7 +16,7 @@ import (
 // unmodified, once, in the publisher's order.
 
 func c06Stream(w *W) {
-	tran := w.simFallback([]string{"sim", "simipc", "tcp", "ipc", "tls+tcp"}[w.Choose(simrt.SShape, 5)])
+	tran := w.simFallback([]string{"sim", "simipc", "tcp", "ipc", "tls+tcp", "ws", "wss"}[w.Choose(simrt.SShape, 7)])
 	kind := []string{"pub", "xpub"}[w.Choose(simrt.SShape, 2)]
 	nsub := 2 + w.Choose(simrt.SShape, 3)
 	nmsg := 4 + w.Choose(simrt.SShape, 26)
